@@ -92,7 +92,7 @@ func EncodeCMPPContentAndSplit(ctx context.Context, content string, msgFmt datac
 		return [][]byte{encodedData}, actualMsgFmt, nil
 	}
 
-	contents, err = splitWithUDHI(encodedData, perMsgLength, frameKey)
+	contents, err = splitWithUDHI(encodedData, perMsgLength, frameKey, boundaryFor(encoder.Name()))
 	if err != nil {
 		return nil, 0, err
 	}
@@ -163,7 +163,7 @@ func EncodeSMPPContentAndSplit(ctx context.Context, content string, msgFmt datac
 		return [][]byte{encodedData}, actualMsgFmt, nil
 	}
 
-	contents, err = splitWithUDHI(encodedData, perMsgLength, frameKey)
+	contents, err = splitWithUDHI(encodedData, perMsgLength, frameKey, boundaryFor(encoder.Name()))
 	if err != nil {
 		return nil, 0, err
 	}
@@ -254,6 +254,50 @@ func gsm7Boundary(data []byte, begin, end int) int {
 	return end
 }
 
+// ucs2Boundary keeps the two halves of a UTF-16 surrogate pair in one part.
+func ucs2Boundary(data []byte, begin, end int) int {
+	if end-begin >= 4 && data[end-2]&0xFC == 0xD8 {
+		return end - 2
+	}
+	return end
+}
+
+// gb18030Boundary returns the last GB18030 character boundary that is not beyond end
+// (characters take 1, 2 or 4 octets; a four-octet one has a digit 0x30..0x39 as its second octet).
+func gb18030Boundary(data []byte, begin, end int) int {
+	pos := begin
+	for pos < end {
+		n := 1
+		if data[pos] >= 0x81 && data[pos] != 0xFF {
+			n = 2
+			if pos+1 < len(data) && data[pos+1] >= 0x30 && data[pos+1] <= 0x39 {
+				n = 4
+			}
+		}
+		if pos+n > end {
+			break
+		}
+		pos += n
+	}
+	if pos > begin {
+		return pos
+	}
+	return end
+}
+
+// boundaryFor selects the rule that keeps multi-unit characters of a coding in one part.
+func boundaryFor(name datacoding.DataCoding) boundaryFunc {
+	switch name {
+	case datacoding.DataCodingUcs2, datacoding.DataCodingUcs2NoSign:
+		return ucs2Boundary
+	case datacoding.DataCodingGB18030:
+		return gb18030Boundary
+	case datacoding.DataCodingGSM7UnPacked:
+		return gsm7Boundary
+	}
+	return nil
+}
+
 // cutPoints returns the end offsets of the parts: every part takes at most perMsgLength units and the
 // parts together cover the data exactly once.
 func cutPoints(data []byte, perMsgLength int, boundary boundaryFunc) []int {
@@ -274,8 +318,8 @@ func cutPoints(data []byte, perMsgLength int, boundary boundaryFunc) []int {
 }
 
 // splitWithUDHI splits the long message according to perMsgLength and adds a 6-byte header for concatenated SMS.
-func splitWithUDHI(data []byte, perMsgLength int, frameKey byte) ([][]byte, error) {
-	ends := cutPoints(data, perMsgLength, nil)
+func splitWithUDHI(data []byte, perMsgLength int, frameKey byte, boundary boundaryFunc) ([][]byte, error) {
+	ends := cutPoints(data, perMsgLength, boundary)
 	msgCount := len(ends)
 	if msgCount > maxLongSmsParts {
 		return nil, ErrTooManyParts
